@@ -26,4 +26,4 @@ for ((w=0; w<n; w++)); do
   work $w "${mine[@]}" > /root/scratch/par/res$w.txt &
 done
 wait
-cat /root/scratch/par/res*.txt | sort
+cat /root/scratch/par/res*.txt | sort | tee /root/scratch/par/RESULTS.txt
